@@ -13,6 +13,9 @@ import (
 
 var errInjected = fmt.Errorf("injected fault")
 
+// a reader's own failure that happens to WRAP io.EOF (it is still not a clean end of input)
+var errInjectedEOF = fmt.Errorf("injected fault: connection lost: %w", io.EOF)
+
 func errClass(err error) string {
 	switch {
 	case err == nil:
@@ -21,7 +24,7 @@ func errClass(err error) string {
 		return "eof"
 	case err == io.ErrUnexpectedEOF:
 		return "ueof"
-	case err == errInjected:
+	case err == errInjected, err == errInjectedEOF:
 		return "inj"
 	}
 	return "rej"
